@@ -1226,6 +1226,16 @@ class Interp:
         handler = self.loop_handlers.get(key) if hasattr(self, "loop_handlers") else None
         if handler is not None:
             return handler(self, st, env)
+        m = _match_ancestor_walk(st)
+        if m is not None and self.heap is not None and hasattr(self.heap, "summarise_ancestor_walk"):
+            # loop of the exact shape `while isinstance(v.parent, K): v = v.parent` -> summary:
+            # v becomes the highest ancestor-or-self reachable through parents that are all K
+            var, kexpr = m
+            x = env.lookup(var)
+            ci = self.eval(kexpr, env)
+            if isinstance(x, Obj) and isinstance(ci, ClassVal):
+                env.assign(var, self.heap.summarise_ancestor_walk(self, x, ci.info))
+                return
         n = 0
         while self.cond(st.test, env, f"while@{st.lineno}"):
             n += 1
@@ -2054,6 +2064,8 @@ def zarith_pair_eq(a, b):
 
 
 def _minmax(I, args, is_min):
+    if len(args) == 1 and isinstance(args[0], SymList):
+        return I.call_external("py.min" if is_min else "py.max", args, {})
     items = I.iterate(args[0]) if len(args) == 1 else list(args)
     if not items:
         I.raise_("ValueError", "min/max of empty sequence", implicit=True)
@@ -2105,6 +2117,28 @@ def _isinstance_builtin(I, v, name):
     if name == "dict":
         return isinstance(v, (DictObj, SymDict))
     raise OutOfSubset(f"isinstance with builtin {name}")
+
+
+def _match_ancestor_walk(st):
+    """`while isinstance(V.parent, K): V = V.parent` with V a plain name; returns (V, K-expression)."""
+    t = st.test
+    if st.orelse or len(st.body) != 1:
+        return None
+    if not (isinstance(t, ast.Call) and isinstance(t.func, ast.Name) and t.func.id == "isinstance" and len(t.args) == 2 and not t.keywords):
+        return None
+    a = t.args[0]
+    if not (isinstance(a, ast.Attribute) and a.attr == "parent" and isinstance(a.value, ast.Name)):
+        return None
+    v = a.value.id
+    b = st.body[0]
+    if not (isinstance(b, ast.Assign) and len(b.targets) == 1 and isinstance(b.targets[0], ast.Name) and b.targets[0].id == v):
+        return None
+    r = b.value
+    if not (isinstance(r, ast.Attribute) and r.attr == "parent" and isinstance(r.value, ast.Name) and r.value.id == v):
+        return None
+    if not isinstance(t.args[1], (ast.Name, ast.Attribute)):
+        return None
+    return v, t.args[1]
 
 
 def _boolean_valued(e):
